@@ -51,19 +51,23 @@ THEOREMS = ['C16_split_flags_star', 'C16_split_flags_plus',
             'C16_conflicting_flags_rejected_trcl', 'C16_trcl_copy_in_table',
             'C16_unflagged_deck_no_entries',
             'C16_macrobody_flag_stops_run_t', 'C16_bc_entry_sound',
-            'C16_bc_stale_kind_quirk']
+            'C16_bc_stale_kind_quirk', 'C16_bc_designates_keys',
+            'C16_aux_ids_above', 'C16_bc_designates_keys_trcl',
+            'C16_finish_designates', 'C16_finish_sound']
 TRUSTED = [
     'hand-written model coq/C16/Model.v (modelled, tied by execution only)',
     'surfaces are abstract in the model: a descriptor class stands for '
     'SurfaceT4.__eq__ (type, parameters, transform); the harness assigns the '
     'classes from a hand-written table of canonical TRIPOLI-4 forms and the '
     'tie compares them with the written SURF lines',
-    'cells of the model are intersections of signed single-part surfaces, '
-    'optionally with a TRCL (the descriptor class of each transformed copy is '
-    'supplied by the harness from the translated canonical form: only '
-    'translations are generated in the tie stream); unions, complements, '
-    'FILL copies, TR on surface cards and multi-part surfaces referenced by '
-    'cells are covered by the oracle sweep only',
+    'cells of the model are intersections of signed surface numbers (single '
+    'surfaces with either sense, one-sheet cones and macrobodies with the '
+    'negative sense: pot_expand_surfs), optionally with a TRCL (descriptor '
+    'classes and sides of each transformed copy are supplied by the harness '
+    'from a hand-written rigid-motion table: translations and quarter-turn '
+    'rotations in the tie stream); unions (incl. positive literals of '
+    'collections), complements, FILL copies and TR on surface cards are '
+    'covered by the oracle sweep only',
     'the union helper planes (two PLANEX ids above every other id) are not in '
     'the model: intersection-only cells never use them and they can never be '
     'the smallest of a duplicate group',
@@ -110,41 +114,86 @@ for _locus, _form, _sp in POOL:
     CLASS_OF.setdefault(_form, len(CLASS_OF) + 1)
 FRESH0 = 1000        # classes of facets that duplicate nothing
 
-# TRCL translations used by the tie stream; (5 0 0) and (0 4 0) move one pool
-# surface onto another one, (0 0 0) makes a copy equal to its original
-SHIFTS = ['0 0 0', '5 0 0', '0 4 0', '1 2 3']
+# TRCL transformations used by the tie stream: translations ((5 0 0) and
+# (0 4 0) move one pool surface onto another one, (0 0 0) makes a copy equal
+# to its original) and two rotations by a quarter turn given as direction
+# cosines (exact in binary64); the first one maps px 0 onto py 3
+SHIFTS = ['0 0 0', '5 0 0', '0 4 0', '1 2 3',
+          '0 3 0 0 1 0 -1 0 0 0 0 1', '0 0 0 1 0 0 0 0 1 0 -1 0']
+AXES = {(1.0, 0.0, 0.0): 0, (0.0, 1.0, 0.0): 1, (0.0, 0.0, 1.0): 2}
 
 
-def moved_form(form, shift):
-    '''Canonical TRIPOLI-4 form of a pool surface translated by `shift`
-    (written from the geometry, not from the code).'''
+def tr_spec(text):
+    '''(O, M): origin and the matrix whose columns are the auxiliary axes in
+    main coordinates (MCNP manual: B_ij = cosine between main axis x_i and
+    auxiliary axis x'_j; the card lists B by rows of the AUXILIARY axes
+    x', y', z' expressed in the main frame).'''
+    v = [float(x) for x in text.split()]
+    o = np.array(v[:3])
+    m = np.eye(3) if len(v) == 3 else np.array(v[3:12]).reshape(3, 3).T
+    return o, m
+
+
+def moved_form(form, tr):
+    '''Canonical TRIPOLI-4 form of a pool surface moved by the rigid motion
+    `tr` = (O, M), main = O + M aux (written from the geometry, not from the
+    code; M is a signed permutation matrix here so everything is exact).'''
     typ, prm = form
-    dx, dy, dz = shift
-    if typ == 'PLANEX':
-        return (typ, (prm[0] + dx,))
-    if typ == 'PLANEY':
-        return (typ, (prm[0] + dy,))
-    if typ == 'PLANEZ':
-        return (typ, (prm[0] + dz,))
-    if typ == 'PLANE':          # a x + b y + c z + d = 0
-        a, b, c, d = prm
-        return (typ, (a, b, c, d - (a * dx + b * dy + c * dz)))
-    if typ in ('SPHERE', 'CONEZ'):
-        return (typ, (prm[0] + dx, prm[1] + dy, prm[2] + dz, prm[3]))
-    if typ == 'CYLZ':
-        return (typ, (prm[0] + dx, prm[1] + dy, prm[2]))
-    if typ == 'CYLX':
-        return (typ, (prm[0] + dy, prm[1] + dz, prm[2]))
-    raise ValueError(typ)
+    o, m = tr
+    if typ in ('PLANEX', 'PLANEY', 'PLANEZ', 'PLANE'):
+        if typ == 'PLANE':
+            n, dist = np.array(prm[:3]), -prm[3]    # a x + b y + c z + d = 0
+        else:
+            n = np.eye(3)['XYZ'.index(typ[-1])]
+            dist = prm[0]
+        big_n = m @ n
+        dist = dist + float(big_n @ o)
+        axis = AXES.get(tuple(float(x) + 0.0 for x in big_n))
+        if axis is not None:
+            return ('PLANE' + 'XYZ'[axis], (dist,))
+        return ('PLANE', (*(float(x) + 0.0 for x in big_n), -dist + 0.0))
+    if typ == 'SPHERE':
+        c = o + m @ np.array(prm[:3])
+        return (typ, (*(float(x) + 0.0 for x in c), prm[3]))
+    k = 'XYZ'.index(typ[-1])                        # CYLk / CONEk
+    others = [i for i in range(3) if i != k]
+    if typ.startswith('CYL'):
+        p = np.zeros(3)
+        p[others[0]], p[others[1]] = prm[0], prm[1]
+        rest = (prm[2],)
+    else:
+        p = np.array(prm[:3])
+        rest = (prm[3],)
+    axis = m @ np.eye(3)[k]
+    j = AXES[tuple(abs(float(x)) for x in axis)]
+    q = o + m @ p
+    if typ.startswith('CYL'):
+        oj = [i for i in range(3) if i != j]
+        return ('CYL' + 'XYZ'[j], (float(q[oj[0]]) + 0.0,
+                                   float(q[oj[1]]) + 0.0, *rest))
+    return ('CONE' + 'XYZ'[j], (*(float(x) + 0.0 for x in q), *rest))
 
 
-for _locus, _form, _sp in list(POOL):
-    for _sh in SHIFTS:
-        CLASS_OF.setdefault(
-            moved_form(_form, tuple(float(x) for x in _sh.split())),
-            len(CLASS_OF) + 1)
-assert len(CLASS_OF) < FRESH0
-FORM_OF_CLASS = {v: k for k, v in CLASS_OF.items()}
+
+
+def moved_parts(s, trcl):
+    '''(descriptor classes, sides) of the sub-surfaces of the copy of card
+    `s` made for a cell with TRCL=(trcl).  Facets of a macrobody move as
+    planes and keep their sides; the plane of a one-sheet cone is made anew
+    from the moved cone: normal to its axis through the apex, the kept sheet
+    on its positive side when the sheet points along the positive axis.'''
+    forms = [FORM_OF_CLASS[c] for c in [s['cls']] + list(s['aux'])]
+    sides = list(s.get('sides') or [True] * len(forms))
+    tr = tr_spec(trcl)
+    moved = [moved_form(f, tr) for f in forms]
+    if s['text'].startswith('kz') and len(forms) == 2:
+        sheet = 1.0 if sides[1] is False else -1.0
+        axis = tr[1] @ np.array([0.0, 0.0, 1.0])
+        j = AXES[tuple(abs(float(x)) for x in axis)]
+        sheet *= float(axis[j])
+        moved[1] = ('PLANE' + 'XYZ'[j], (moved[0][1][j],))
+        sides[1] = sheet < 0
+    return [CLASS_OF[f] for f in moved], sides
 
 
 def moved_cls(cls, trcl):
@@ -153,17 +202,45 @@ def moved_cls(cls, trcl):
     form = FORM_OF_CLASS.get(cls)
     if form is None:
         return 0
-    return CLASS_OF[moved_form(form, tuple(float(x) for x in trcl.split()))]
+    return CLASS_OF[moved_form(form, tr_spec(trcl))]
 
-# cards with several sub-surfaces: spelling, MCNP parts, first class, aux
-# classes (fresh unless they are a pool form)
+# cards with several sub-surfaces: spelling, MCNP parts, canonical TRIPOLI-4
+# forms of the sub-surfaces in collection order, and their sides (True = the
+# MCNP negative sense lies on the negative side of the TRIPOLI-4 surface);
+# written from the geometry of the bodies
+def _px(a): return ('PLANEX', (float(a),))
+def _py(a): return ('PLANEY', (float(a),))
+def _pz(a): return ('PLANEZ', (float(a),))
+
+
+_KZ = ('CONEZ', (0.0, 0.0, 0.0, 45.0))
 MULTI = [
-    ('kz 0 1 1', 1, CLASS_OF[('CONEZ', (0.0, 0.0, 0.0, 45.0))],
-     [CLASS_OF[('PLANEZ', (0.0,))]]),
-    ('rpp -11 12 -13 14 -15 16', 6, None, [None] * 5),
-    ('rcc 0 0 -20 0 0 1 9.5', 3, None, [None] * 2),
-    ('box -30 -30 -30 1 0 0 0 2 0 0 0 3', 6, None, [None] * 5),
+    ('kz 0 1 1', 1, [_KZ, _pz(0)], [True, False]),     # sheet z > 0
+    ('kz 0 1 -1', 1, [_KZ, _pz(0)], [True, True]),     # sheet z < 0
+    ('rpp -11 12 -13 14 -15 16', 6,
+     [_px(12), _px(-11), _py(14), _py(-13), _pz(16), _pz(-15)],
+     [True, False] * 3),
+    ('rpp -11 12 -13 3 -2 16', 6,        # two facets are pool planes
+     [_px(12), _px(-11), _py(3), _py(-13), _pz(16), _pz(-2)],
+     [True, False] * 3),
+    ('rcc 0 0 -20 0 0 40 9.5', 3,
+     [('CYLZ', (0.0, 0.0, 9.5)), _pz(20), _pz(-20)], [True, True, False]),
+    ('box -30 -30 -30 60 0 0 0 60 0 0 0 60', 6,
+     [_px(30), _px(-30), _py(30), _py(-30), _pz(30), _pz(-30)],
+     [True, False] * 3),
 ]
+for _form in [f for _l, f, _s in POOL] + [f for m in MULTI for f in m[2]]:
+    CLASS_OF.setdefault(_form, len(CLASS_OF) + 1)
+for _form in list(CLASS_OF):
+    for _sh in SHIFTS:
+        _mv = moved_form(_form, tr_spec(_sh))
+        CLASS_OF.setdefault(_mv, len(CLASS_OF) + 1)
+        if _mv[0].startswith('CONE'):      # plane of a one-sheet cone
+            _j = 'XYZ'.index(_mv[0][-1])
+            CLASS_OF.setdefault(('PLANE' + 'XYZ'[_j], (_mv[1][_j],)),
+                                len(CLASS_OF) + 1)
+assert len(CLASS_OF) < FRESH0
+FORM_OF_CLASS = {v: k for k, v in CLASS_OF.items()}
 WEIRD_FLAGS = ['**', '*+', '+*', '++', '***']
 
 
@@ -185,7 +262,8 @@ def pool_pick(rng, idx=None):
 def gen_deck(rng, malformed=False):
     '''Abstract deck inside the model's scope.'''
     n = rng.randint(2, 7)
-    ids = rng.sample(range(1, 40), n + 8)
+    # numbers up to 999, so that 1000 * cell + surface needs all three digits
+    ids = rng.sample(list(range(1, 40)) + [105, 240, 999], n + 8)
     surfs = []
     for k in range(n):
         s = pool_pick(rng)
@@ -208,24 +286,13 @@ def gen_deck(rng, malformed=False):
                 if s['flag'] else ''
             surfs.append(d)
             p *= 0.4
-    fresh = [FRESH0]
-
     def multi(flag):
-        text, parts, first, aux = rng.choice(MULTI)
-        m = {'pool': None, 'locus': None, 'text': text, 'mcnp': parts,
-             'flag': flag, 'single': False}
-        if first is None:
-            fresh[0] += 1
-            first = fresh[0]
-        auxc = []
-        for a in aux:
-            if a is None:
-                fresh[0] += 1
-                a = fresh[0]
-            auxc.append(a)
-        m['cls'], m['aux'] = first, auxc
-        return m
-    if rng.random() < 0.3 and extra:
+        text, parts, forms, sides = rng.choice(MULTI)
+        return {'pool': None, 'locus': None, 'text': text, 'mcnp': parts,
+                'flag': flag, 'single': False, 'sides': sides,
+                'cls': CLASS_OF[forms[0]],
+                'aux': [CLASS_OF[f] for f in forms[1:]]}
+    if rng.random() < 0.4 and extra:
         m = multi('')
         m['id'] = extra.pop()
         surfs.append(m)
@@ -263,14 +330,20 @@ def gen_deck(rng, malformed=False):
     usable = sorted({s['id'] for s in singles if last[s['id']]['single']})
     cells = []
     n_cells = rng.randint(1, 4)
+    # collections (one-sheet cones, macrobodies): negative literals only (a
+    # positive one is a UNION, outside the model)
+    bodies = sorted(k for k, s in last.items() if not s['single'])
     for c in range(n_cells):
         k = rng.randint(1, min(4, len(usable)))
         lits = [sid if rng.random() < 0.5 else -sid
                 for sid in rng.sample(usable, k)]
+        if bodies and rng.random() < 0.5:
+            lits.insert(rng.randrange(len(lits) + 1), -rng.choice(bodies))
         cells.append({'id': c + 1, 'lits': lits, 'imp': 1})
     if rng.random() < 0.12:         # the same surface with both senses
         c = rng.choice(cells)
-        c['lits'].append(-c['lits'][0])
+        if abs(c['lits'][0]) in usable:
+            c['lits'].append(-c['lits'][0])
     if fault == 'missing':
         rng.choice(cells)['lits'].append(rng.choice([77, -78]))
     elif fault == 'nocell':
@@ -291,6 +364,37 @@ def gen_deck(rng, malformed=False):
         for c in cells:
             if rng.random() < 0.5:
                 c['trcl'] = rng.choice(SHIFTS)
+    # MCNP's 1000 * cell + surface: the surface as moved by the TRCL of that
+    # cell, named by a cell without TRCL (one or two per deck, kept only when
+    # Python's set order is the ascending one the model assumes)
+    owners = [c for c in cells if c.get('trcl')]
+    hosts = [c for c in cells if not c.get('trcl')]
+    if hosts and fault in (None, 'macro', 'weird', 'dupnum') \
+            and rng.random() < (0.45 if owners else 0.04):
+        names = set()
+        badref = False
+        for _ in range(rng.choice([1, 1, 2])):
+            roll = rng.random()
+            owner = rng.choice(owners) if owners and roll < 0.9 else \
+                rng.choice(cells + [{'id': 8}])      # no TRCL / no such cell
+            sid = rng.choice(usable + bodies) if rng.random() < 0.93 else 79
+            n = 1000 * owner['id'] + sid
+            if n in names or list(names | {n}) != sorted(names | {n}):
+                continue
+            names.add(n)
+            badref = badref or sid == 79 or owner['id'] == 8
+            lit = -n if sid in bodies or rng.random() < 0.5 else n
+            rng.choice(hosts)['lits'].append(lit)
+        if badref and fault is None:
+            fault = 'missing'       # names a surface / a cell that does not exist
+        elif badref:
+            return gen_deck(rng, malformed)
+        # the converter walks set(names) - set(cards): keep the deck only when
+        # that walk is in ascending order, which is what the model assumes
+        walk = set(abs(x) for c in cells for x in c['lits']
+                   if abs(x) >= 1000) - set(s['id'] for s in surfs)
+        if list(walk) != sorted(walk):
+            return gen_deck(rng, malformed)
     return {'surfs': surfs, 'cells': cells, 'fault': fault}
 
 
@@ -324,6 +428,7 @@ def render(deck):
 
 EXC = {'NotImplementedError': 'ENotImplemented',
        'UnboundLocalError': 'EUnbound', 'KeyError': 'EKey',
+
        'ValueError': 'EValue'}
 KIND = {'REFLECTION': 'Reflection', 'COSINUS': 'Cosinus'}
 
@@ -347,7 +452,9 @@ def observe(deck, args):
 
 def coq_cards(deck):
     return clist(f'(mkS {cstr(surf_name(s))} {cnat(s["mcnp"])} {cn(s["cls"])} '
-                 f'{clist(cn(a) for a in s["aux"])})' for s in deck['surfs'])
+                 f'{clist(cn(a) for a in s["aux"])} '
+                 f'{clist(cbool(b) for b in s.get("sides", []))})'
+                 for s in deck['surfs'])
 
 
 def coq_cells(deck):
@@ -359,13 +466,24 @@ def coq_cells(deck):
     for c in deck['cells']:
         lits = []
         for x in c['lits']:
-            cls = 0
+            cls, aux, sides = 0, [], []
             s = last.get(abs(x))
-            if c.get('trcl') and s is not None and s['single']:
-                cls = moved_cls(s['cls'], c['trcl'])
-            lits.append(f'(mkL {cz(x)} {cn(cls)} [])')
+            if c.get('trcl') and s is not None:
+                (cls, *aux), sides = moved_parts(s, c['trcl'])
+            lits.append(f'(mkL {cz(x)} {cn(cls)} {clist(cn(a) for a in aux)} '
+                        f'{clist(cbool(b) for b in sides)})')
+        impl_ = []
+        if c.get('trcl'):
+            for n in sorted(k for k, v in last.items()
+                            if v.get('moved') and k // 1000 == c['id']):
+                v = last[n]
+                impl_.append(cpair(
+                    cn(n % 1000),
+                    f'(mkD {cn(v["cls"])} {clist(cn(a) for a in v["aux"])} '
+                    f'{clist(cbool(b) for b in v["sides"])})'))
         out.append(f'(mkC {cn(c["id"])} {cbool(c["imp"] != 0)} '
-                   f'{cbool(bool(c.get("trcl")))} {clist(lits)})')
+                   f'{cbool(bool(c.get("trcl")))} {clist(lits)} '
+                   f'{clist(impl_)})')
     return clist(out)
 
 
@@ -377,8 +495,14 @@ def sample_points(rng, n=48, half=10.0):
 
 def mcnp_value(deck, s, p, shift=None):
     mn, prm = card_semantics(s['text'])
-    if shift is not None:     # the surface as moved by a cell's TRCL
-        p = tuple(np.asarray(p, float) - np.array(shift, float))
+    if shift is not None:     # the surface as moved by a cell's TRCL / FILL
+        tr = {'O': list(shift[:3]),
+              'B': list(shift[3:12]) if len(shift) > 3 else None}
+        p = tuple(mcnpref.to_aux(tr, p))
+    if s.get('moved'):        # an implicit surface 1000 * cell + surface
+        v = [float(x) for x in s['moved'].split()]
+        p = tuple(mcnpref.to_aux({'O': v[:3],
+                                  'B': v[3:12] if len(v) > 3 else None}, p))
     if s.get('tr'):
         vec = deck['trs'][s['tr']]
         p = tuple(np.asarray(p, float) - np.array(vec, float))
@@ -416,11 +540,26 @@ def cell_refs(deck, c, seen=()):
 
 
 def effective_surfs(deck):
-    '''What each surface number finally denotes (a later card with the same
-    number replaces an earlier one).'''
+    '''What each surface number finally denotes: a later card with the same
+    number replaces an earlier one; a number n >= 1000 named by a cell and
+    not a card is surface n % 1000 as moved by the TRCL of cell n // 1000
+    (it inherits the flag).'''
     last = {}
     for s in deck['surfs']:
         last[s['id']] = s
+    cells = {c['id']: c for c in deck['cells']}
+    for c in deck['cells']:
+        for x in c.get('lits') or []:
+            n = abs(x)
+            base, owner = last.get(n % 1000), cells.get(n // 1000)
+            if n < 1000 or n in last or base is None or owner is None:
+                continue
+            if not owner.get('trcl'):     # no TRCL: an untransformed copy
+                last[n] = dict(base, id=n, implicit=True, zeros=False)
+                continue
+            (cls, *aux), sides = moved_parts(base, owner['trcl'])
+            last[n] = dict(base, id=n, cls=cls, aux=aux, sides=list(sides),
+                           moved=owner['trcl'], implicit=True, zeros=False)
     return last
 
 
@@ -538,6 +677,35 @@ def oracle(deck, args, conv, t4, rng):
     return out
 
 
+def written_possible(deck, dedup):
+    '''False when no converted cell can survive (the run then stops on an
+    empty max()): no cell with non-zero importance, or every one has two
+    coincident sub-surfaces (the same one when de-duplication is off) with
+    opposite senses.'''
+    last = effective_surfs(deck)
+    for c in deck['cells']:
+        if c['imp'] == 0 or 'lits' not in c:
+            continue
+        pos, neg = set(), set()
+        for n, x in enumerate(c['lits']):
+            s = last.get(abs(x))
+            if s is None:
+                continue
+            if c.get('trcl'):
+                classes, sides = moved_parts(s, c['trcl'])
+                names = [('copy', n, i) for i in range(len(classes))]
+            else:
+                classes = [s['cls']] + list(s['aux'])
+                sides = list(s.get('sides') or [True] * len(classes))
+                names = [('card', abs(x), i) for i in range(len(classes))]
+            for cls, side, name in zip(classes, sides, names):
+                positive = (x > 0) == side
+                (pos if positive else neg).add(cls if dedup else name)
+        if not pos & neg:
+            return True
+    return False
+
+
 def conflicting_loci(deck, last):
     '''Two coincident loci carrying different proper flags: flagged single
     cards and the copies made for converted cells with a TRCL / placed by a
@@ -548,9 +716,9 @@ def conflicting_loci(deck, last):
             loci.append((s, None))
     for c in deck['cells']:
         shift = trcl_shift(c)
-        if shift is None or c['imp'] == 0:
-            continue
-        for k in cell_refs(deck, c):
+        if shift is None:
+            continue        # skipped cells included: their copies are merged
+        for k in cell_refs(deck, c):    # with coincident surfaces all the same
             s = last.get(k)
             if s is not None and s['flag'] in ('*', '+') and s['mcnp'] == 1:
                 loci.append((s, shift))
@@ -577,23 +745,6 @@ def trcl_shift(c):
     transformation of the FILL that places its universe.'''
     text = c.get('trcl') or c.get('fillshift')
     return [float(x) for x in text.split()] if text else None
-
-
-def written_possible(deck, dedup):
-    '''False when no converted cell can survive (the run then stops on an
-    empty max()): no cell with non-zero importance, or every one has two
-    duplicates / the same surface with opposite senses.'''
-    last = effective_surfs(deck)
-    for c in deck['cells']:
-        if c['imp'] == 0 or 'lits' not in c:
-            continue
-        pos = {(last[abs(x)]['cls'] if dedup else abs(x))
-               for x in c['lits'] if x > 0 and abs(x) in last}
-        neg = {(last[abs(x)]['cls'] if dedup else abs(x))
-               for x in c['lits'] if x < 0 and abs(x) in last}
-        if not pos & neg:
-            return True
-    return False
 
 
 # ---- decks that failed before the repair of writeT4BoundCond ---------------
@@ -682,6 +833,25 @@ def corpus_decks():
                          [{'id': 1, 'lits': [1, -1], 'imp': 1,
                            'trcl': '0 0 0'},
                           {'id': 2, 'lits': [-1, 2], 'imp': 1}, skip]), args))
+    # 1000 * cell + surface with a three-digit surface number (m16), the owner
+    # with a rotation, the flagged original unused
+    out.append((deck([card(1, '', 2), card(105, '*', 0), card(4, '', 3)],
+                     [{'id': 2, 'lits': [-1], 'imp': 1,
+                       'trcl': '0 3 0 0 1 0 -1 0 0 0 0 1'},
+                      {'id': 3, 'lits': [2105, -4, -1], 'imp': 1}, skip]), []))
+    # a one-sheet cone inside a cell: the plane of the sheet is merged into a
+    # card, the entry stays on the cone; and its copy under a quarter turn
+    # (the plane of the copy changes side)
+    cone_lo = {'id': 6, 'flag': '*', 'text': 'kz 0 1 -1', 'mcnp': 1,
+               'cls': CLASS_OF[_KZ], 'aux': [CLASS_OF[_pz(0)]],
+               'sides': [True, True], 'single': False, 'locus': None,
+               'pool': None}
+    for trcl in (None, '0 0 0 1 0 0 0 0 1 0 -1 0'):
+        cell = {'id': 1, 'lits': [-6, -7, -1], 'imp': 1}
+        if trcl:
+            cell['trcl'] = trcl
+        out.append((deck([card(1, '', 8), dict(cone_lo), card(7, '', 7)],
+                         [cell, skip]), []))
     # one-sheet cone (two TRIPOLI-4 parts) flagged, weird flag after a star
     cone = {'id': 6, 'flag': '+', 'text': 'kz 0 1 1', 'mcnp': 1,
             'cls': CLASS_OF[('CONEZ', (0.0, 0.0, 0.0, 45.0))],
@@ -907,21 +1077,26 @@ def tie_numbering(res, rng, n):
                 cls += 1
                 vals.append((cls, rng.choice([1, -1])))
             dic[k] = vals
-            table.append((k, [c for c, _ in vals]))
-        numbering, _ = dic.number_items()
+            table.append((k, [c for c, _ in vals], [sd for _, sd in vals]))
+        numbering, matching = dic.number_items()
         want = clist(cpair(cn(k), cn(c)) for k, c in numbering.items())
+        wantm = clist(cpair(cn(k), clist(cz(i) for i in ids))
+                      for k, ids in matching.items())
         tab = clist(cpair(cn(k), f'(mkE "" 1 {cn(cl[0])} '
-                          f'{clist(cn(c) for c in cl[1:])})')
-                    for k, cl in table)
+                          f'{clist(cn(c) for c in cl[1:])} '
+                          f'{clist(cbool(sd > 0) for sd in sides)})')
+                    for k, cl, sides in table)
         lines.append(f'list_eqb (pair_eqb N.eqb N.eqb) (number_items {tab}) '
-                     f'{want}')
+                     f'{want} && list_eqb (pair_eqb N.eqb (list_eqb Z.eqb)) '
+                     f'(matching_of {tab}) {wantm}')
         meta.append(table)
     term = 'From T4V Require Import Base.Cases.\nImport ListNotations.\n'
     out, log = common.coq_eval(
         HEADER + term, 'bad_indices (fun b : bool => b) '
         + clist(lines))
     ok = out is not None and out.strip() in ('[]', 'nil')
-    res.obligation(f'tie:numbering ({n} dictionaries: number_items)', ok,
+    res.obligation(f'tie:numbering ({n} dictionaries: number_items = '
+                   'number_items + matching_of)', ok,
                    f'{out} {log[-300:] if out is None else ""}')
     if not ok:
         res.violation('correspondence',
@@ -963,8 +1138,8 @@ def run(res, tier, seed, proofs_ok):
                 'flagged surfaces (smaller and larger numbers, same or other '
                 'spelling, flagged or not), optional macrobody / one-sheet '
                 'cone, 1-4 cells that are intersections, 35 % of the decks with '
-                'TRCL translations (4 shifts, two of them moving a pool '
-                'surface onto another one, one the identity) on about half of '
+                'TRCL transformations (4 translations, two of them moving a pool '
+                'surface onto another one, one the identity, and 2 quarter-turn rotations) on about half of '
                 'their cells incl. the importance-0 cell, with and without '
                 '--skip-deduplication and --skip-boundary-conditions; '
                 'malformed stream: flagged macrobody, flags **,*+,..., '
@@ -1006,6 +1181,12 @@ def run(res, tier, seed, proofs_ok):
         res.seen((text, args), nontrivial=n_flag > 0)
         res.count(f'flagged:{min(n_flag, 5)}')
         res.count('fault:' + str(deck['fault']))
+        res.count('shape:implicit-1000*cell+surf:' + str(any(
+            abs(x) >= 1000 for c in deck['cells'] for x in c['lits'])))
+        res.count('shape:trcl:' + str(any(c.get('trcl') for c in deck['cells'])))
+        res.count('shape:collection-in-cell:' + str(any(
+            not s['single'] and any(abs(x) % 1000 == s['id'] for c in deck['cells']
+                                    for x in c['lits']) for s in deck['surfs'])))
         res.count('impl:' + (conv.exc or 'ok'))
         res.count('dedup:' + str('--skip-deduplication' not in args))
         cases.append(cpair(cbool('--skip-deduplication' in args),
